@@ -1165,7 +1165,10 @@ static void runVario(const VarioC& c, Ctx& ctx)
   if (c.bySample) ctx.label("by-sample");
   ctx.sig = sigDb(d, true, 1, c.calc * 4 + c.ndir);
   std::string MK = dbMaskKind(d, true, 1), CN = std::string(kCalcNames[c.calc]) + (c.bySample ? " by sample" : "");
-  std::string V = "vario";
+  // the by-sample algorithm (forced for the covariogram) accumulates per first sample without resetting its
+  // work arrays (C12's finding bysample:order): its failures carry their own key prefix
+  // the Poisson variogram is the only one that uses the stored mean (wrong today: Vario::_getStatistics)
+  std::string V = (c.bySample || c.calc == 8) ? "vario-bysample" : (c.calc == 5 ? "vario-poisson" : "vario");
   std::vector<int> keep = keptRows(d, true, 1);
   std::unique_ptr<Db> db1 = buildDb(d);
   Snap before = snapOf(db1.get());
@@ -1903,7 +1906,7 @@ static void runAnam(const AnamC& c, Ctx& ctx)
     Cols c1 = newCols(b1, db1.get()), c2 = newCols(b2, db2.get());
     if (c1.size() != 1 || c2.size() != 1) { ctx.fail(V + ":columns", fmt("%d / %d new columns", (int)c1.size(), (int)c2.size())); return; }
     for (int i = 0; i < d.n(); i++)
-      if (!d.active(i) && !na(c1[0].second[(size_t)i])) { ctx.fail(V + ":masked-target-written", fmt("masked sample %d holds %.12g in the new column '%s'", i, c1[0].second[(size_t)i], c1[0].first.c_str())); return; }
+      if (!d.active(i) && !na(c1[0].second[(size_t)i])) { ctx.fail("anam:masked-target-written", fmt("masked sample %d holds %.12g in the new column '%s'", i, c1[0].second[(size_t)i], c1[0].first.c_str())); return; }
     for (size_t q = 0; q < keep.size(); q++)
       if (!same(c1[0].second[(size_t)keep[q]], c2[0].second[q], 1., 1e-8)) { ctx.fail(V + ":transform", fmt("sample %d: %.12g with the masked Db, %.12g with the reduced Db", keep[q], c1[0].second[(size_t)keep[q]], c2[0].second[q])); return; }
   }
